@@ -5,7 +5,7 @@ A check module (mc/checks/cNN.py) declares
     PARTS: dict name -> fn(cell) -> result dict
     plan(tier) -> list of (part_name, list_of_cells)   [cells are JSON values]
 optionally
-    custom(ctx)   -- sequential / frontier based exploration that does not fit the cell model
+    explore(ctx)  -- sequential / frontier based exploration that does not fit the cell model
     summarize(ctx) -- extra coverage keys
 
 result dict of a cell function (all keys optional):
@@ -354,8 +354,8 @@ def run_check(pid, tier, seed):
     try:
         for part, cells in mod.plan(tier):
             ctx.run_part(part, cells)
-        if hasattr(mod, 'custom'):
-            mod.custom(ctx)
+        if hasattr(mod, 'explore'):
+            mod.explore(ctx)
         if hasattr(mod, 'summarize'):
             mod.summarize(ctx)
     except HarnessError as e:
